@@ -84,6 +84,7 @@ inline void selftest_bigint(T &t) {
         t.ok("fp_red 512", u_mod(a, P25519()) == fp_red(a));
         U wide = u_from_le(rng.bytes(80));
         t.ok("fp_red 640", u_mod(wide, P25519()) == fp_red(wide));
+        t.ok("fp_fold", fp_fold(wide) == fp_fold_slow(wide) && fp_fold(a) == fp_fold_slow(a) && fp_fold(b) == fp_fold_slow(b));
         t.ok("fp_mul", u_mulmod(a, b, P25519()) == fp_mul(fp_red(a), b));
         t.ok("fp_add", u_addmod(a, b, P25519()) == fp_add(fp_red(a), b));
         t.ok("fp_sub", u_submod(a, b, P25519()) == fp_sub(fp_red(a), b));
@@ -97,6 +98,7 @@ inline void selftest_bigint(T &t) {
         t.ok("fp_red near p", u_mod(v, P25519()) == fp_red(v));
         U v2 = u_add(u_sub(u_shl(U(1), 256), U(40)), U(k));
         t.ok("fp_red near 2^256", u_mod(v2, P25519()) == fp_red(v2));
+        t.ok("fp_fold near p / 2^256", fp_fold(v) == fp_fold_slow(v) && fp_fold(v2) == fp_fold_slow(v2));
     }
     {
         U a = u_from_le(rng.bytes(32));
@@ -435,7 +437,9 @@ inline void selftest_ristretto(T &t) {
         for (int i = 0; i < 4; i++) {
             Pt M = ristretto_map(u_from_le(rng.bytes(32)));
             Pt R;
-            t.ok("map output valid", pt_on_curve(M) && pt_in_prime_subgroup(pt_double(M)) && ristretto_decode(ristretto_encode(M), R) && ristretto_eq(R, M));
+            t.ok("map output on curve", pt_on_curve(M));
+            t.ok("map output order divides 4L", pt_in_prime_subgroup(pt_mul(U(4), M)));
+            t.ok("map output round trip", ristretto_decode(ristretto_encode(M), R) && ristretto_eq(R, M));
         }
         t.ok("map(0) valid", pt_on_curve(ristretto_map(U(0))));
         t.ok("decode wrong length", !ristretto_decode(Bytes(31, 0), D));
@@ -478,7 +482,8 @@ inline void selftest_h2c(T &t) {
         Bytes a = expand_message_xmd(H_SHA256, m, dst, 100), b = expand_message_xmd(H_SHA256, m, dst, 32);
         t.ok("xmd lengths", a.size() == 100 && b.size() == 32 && sub(a, 0, 32) != b);  // len_in_bytes is hashed in
         t.ok("xmd limits", expand_message_xmd(H_SHA256, m, dst, 255 * 32).size() == 255 * 32 && expand_message_xmd(H_SHA256, m, dst, 255 * 32 + 1).empty() &&
-                               expand_message_xmd(H_SHA512, m, dst, 65535).size() == 65535 && expand_message_xmd(H_SHA512, m, dst, 65536).empty());
+                               expand_message_xmd(H_SHA512, m, dst, 255 * 64).size() == 255 * 64 && expand_message_xmd(H_SHA512, m, dst, 255 * 64 + 1).empty() &&
+                               expand_message_xmd(H_SHA512, m, dst, 65536).empty() && expand_message_xmd(H_SHA256, m, dst, 0).empty());
         // oversize DST (section 5.3.3): same as using H("H2C-OVERSIZE-DST-" || DST) as the DST
         Bytes longdst(256, 'X'), dst255(255, 'X');
         t.eq("xmd oversize dst 256", expand_message_xmd(H_SHA256, m, longdst, 48), expand_message_xmd(H_SHA256, m, sha256(cat(str("H2C-OVERSIZE-DST-"), longdst)), 48));
